@@ -195,6 +195,11 @@ class FileUnicodeMap(UnicodeMap):
             # Interpret as UTF-16BE.
             unichr = code.decode("UTF-16BE", "ignore")
         elif isinstance(code, int):
+            if not 0 <= code < 0x110000 or 0xD800 <= code < 0xE000:
+                # not a Unicode scalar value (out of range, or a lone
+                # surrogate, which no output codec can encode)
+                log.warning("Ignoring invalid Unicode value %r for cid %d", code, cid)
+                return
             unichr = chr(code)
         else:
             raise PDFTypeError(code)
@@ -444,6 +449,11 @@ class CMapParser(PSStackParser[PSKeyword]):
                     base = nunpack(var)
                     prefix = code[:-4]
                     vlen = len(var)
+                    if base + (end - start) > 0xFFFFFFFF:
+                        self._warn_once(
+                            "The target of a bfrange overflows when incremented."
+                        )
+                        continue
                     for i in range(end - start + 1):
                         # 4 - vlen, not -vlen: an empty target has vlen 0 and
                         # [-0:] would be the whole four-byte string.
